@@ -5,6 +5,7 @@ package main
 import (
 	"bufio"
 	"io"
+	"strings"
 
 	"MODULEPATH/zzverif/fakenet"
 	"MODULEPATH/zzverif/rt"
@@ -49,7 +50,15 @@ func genStreamMsg(L, W int, i int) gStreamMsg {
 	if !reduced {
 		m.method = []string{"OPTIONS", "INFO"}[rt.Choice("method", 2)]
 	}
-	switch rt.Choice("linelen", 4) {
+	// BIG = 1: the first message has a body larger than the default window; BIG = 2: small
+	// pipelined messages with non-empty bodies (concrete cuts around the message boundary)
+	big := rt.Param("BIG") == 1 && i == 0
+	pipe := rt.Param("BIG") == 2
+	linelen := 0
+	if !big && !pipe {
+		linelen = rt.Choice("linelen", 4)
+	}
+	switch linelen {
 	case 3: // longer than two windows: three or more chunks
 		m.long = rt.Str("xlong", "alnum", 2*W+1, 2*W+L)
 	case 0:
@@ -59,7 +68,15 @@ func genStreamMsg(L, W int, i int) gStreamMsg {
 	case 2: // longer than the window
 		m.long = rt.Str("long", "alnum", W+1, W+L)
 	}
-	switch rt.Choice("bodykind", 3) {
+	bodykind := 3
+	if pipe {
+		bodykind = 1
+	} else if !big {
+		bodykind = rt.Choice("bodykind", 3)
+	}
+	switch bodykind {
+	case 3: // BIG: a body larger than the default bufio window of the real TCP loop (4096 bytes)
+		m.body = strings.Repeat("b", 4100)
 	case 0:
 		m.body = ""
 	case 1:
@@ -118,6 +135,9 @@ func VC11_Transport() {
 	t := NewTCPServerTransportWithConn(conn, true, NewSelfLearnRoute())
 	h := &vHandler{}
 	k := rt.Choice("messages", K) + 1
+	if rt.Param("BIG") > 0 {
+		k = K // a big first message is only interesting with something behind it
+	}
 	stream := ""
 	var ms []gStreamMsg
 	for i := 0; i < k; i++ {
@@ -135,10 +155,21 @@ func VC11_Transport() {
 	t.Start(h)
 	rt.Quiesce()
 	// two cut positions anywhere in the stream
-	c1 := rt.Int("cut1", 0, 400)
+	c1 := 0
 	c2 := len(stream)
-	if rt.Param("CUTS") > 1 {
-		c2 = rt.Int("cut2", 0, 400)
+	if rt.Param("BIG") > 0 {
+		// concrete cuts around the big message: none, in its header, in its body, exactly behind it,
+		// a few bytes into the next message
+		end0 := len(ms[0].text)
+		c1 = []int{0, 20, end0 / 2, end0 - 1, end0, end0 + 7}[rt.Choice("bigcut", 6)]
+		if rt.Param("CUTS") > 1 {
+			c2 = c1 + []int{0, 1, 2100, len(stream) - c1}[rt.Choice("bigcut2", 4)]
+		}
+	} else {
+		c1 = rt.Int("cut1", 0, 400)
+		if rt.Param("CUTS") > 1 {
+			c2 = rt.Int("cut2", 0, 400)
+		}
 	}
 	rt.Assume(c1 <= c2 && c2 <= len(stream))
 	conn.Feed([]byte(stream[:c1]))
